@@ -9,6 +9,9 @@
 //	rt-int <N>                integer: print, parse back                  → x<text> rt=t|f
 //	rt-val <value>            program-format text, parse (+ resolve constructor calls), compare
 //	                                                                      → x<text> rt=t|f
+//	rt-tval <value> (<xBADRX>*) ((BITS xFTEXT)*)
+//	                          the same for a value that holds TYPES ((ty xTEXT) leaves): the model resolves the type
+//	                          expressions of the parse result as types.ResolveDeferred does                   → x<text> rt=t|f
 //	rt-type <xTEXT> (<xBADRX>*) [((BITS xFTEXT)*)]
 //	                          T := ParseType(text); s := T.String(); T' := ParseType(s); T' = T ∧ T'.String() = s
 //	                                                                      → x<s> rt=t|f | <outcome of the first parse>
@@ -127,8 +130,8 @@ func exec1(c px.Context, op string, args []sx.Sexp) core.Result {
 		return rtValue(c, op, rx, needsEscape(string(s)), rxClass(string(s)))
 	case "rt-int":
 		return rtValue(c, op, types.WrapInteger(args[0].MustInt()), false, "")
-	case "rt-val":
-		if len(args) != 2 {
+	case "rt-val", "rt-tval":
+		if len(args) != 2 && !(op == "rt-tval" && len(args) == 3) {
 			break
 		}
 		var v px.Value
@@ -843,7 +846,7 @@ func rxOp(s string) string {
 // valOp renders an rt-val op line.  A value built from the modelled kinds only (no types, objects, binaries, leaves)
 // also goes to the model, together with the regexp.Compile oracle for the text the implementation prints for it.
 func valOp(c px.Context, v string) string {
-	for _, tag := range []string{"(ty ", "(bin ", "(ts ", "(tsp ", "(sv ", "(uri ", "(obj ", "(sens "} {
+	for _, tag := range []string{"(bin ", "(ts ", "(tsp ", "(sv ", "(uri ", "(obj ", "(sens "} {
 		if strings.Contains(v, tag) {
 			return "@rt-val " + v + " ()"
 		}
@@ -852,8 +855,53 @@ func valOp(c px.Context, v string) string {
 	if err != nil || len(xs) != 1 {
 		panic("bad generated value " + v)
 	}
+	if strings.Contains(v, "(ty ") {
+		// a value that holds types goes to the model when every type text in it is inside the resolver model and accepted
+		if !tyLeavesModelled(c, xs[0]) {
+			return "@rt-val " + v + " ()"
+		}
+		var text string
+		if o := syn.Safely(func() px.Value { text = px.ToString2(valOf(c, xs[0]), programFormat()); return px.Undef }); o.Kind != "value" {
+			return "@rt-val " + v + " ()"
+		}
+		fo := syn.FloatOracle(text)
+		if fo == "" {
+			fo = " ()"
+		}
+		return "rt-tval " + v + " " + syn.OracleSexp(text) + fo
+	}
 	text := px.ToString2(valOf(c, xs[0]), programFormat())
 	return "rt-val " + v + " " + syn.OracleSexp(text)
+}
+
+// tyLeavesModelled: is every (ty xTEXT) leaf of the value a type expression inside the resolver model that the
+// implementation accepts?
+func tyLeavesModelled(c px.Context, e sx.Sexp) bool {
+	if !e.IsList {
+		return true
+	}
+	if e.Tag() == "ty" {
+		text := e.Args()[0].MustStr()
+		p := syn.Parse(text)
+		if p.Kind != "value" || !syn.Modelled(p.Val) {
+			return false
+		}
+		if _, ok := p.Val.(px.ResolvableType); !ok {
+			return false
+		}
+		o := syn.Safely(func() px.Value { return c.ParseType(text) })
+		if o.Kind != "value" {
+			return false
+		}
+		_, ok := o.Val.(px.Type)
+		return ok
+	}
+	for _, k := range e.List {
+		if !tyLeavesModelled(c, k) {
+			return false
+		}
+	}
+	return true
 }
 
 // typeOp renders a model-compared rt-type op line: the text, the regexp.Compile oracle and the float-text oracle
@@ -1095,6 +1143,15 @@ func gen(g *core.G) {
 	for i := 0; i < 20000*g.Scale; i++ {
 		t := syn.GenFragType(g.Rng, 1+g.Rng.Intn(3))
 		g.Emit(typeOp(c, t))
+	}
+	// values that hold types: each type of a list covering every constructor of the fragment as an array element, as a hash
+	// key, as a hash value, nested two deep, next to scalar leaves
+	for _, t := range syn.HeldTypes {
+		ty := "(ty " + hx(t) + ")"
+		for _, v := range []string{ty, "(a " + ty + ")", "(a " + ty + " (i 1) " + ty + ")", "(h (" + ty + " " + ty + "))", "(h ((s " + hx("k") + ") (a " + ty + " (s " + hx("it's") + "))))",
+			"(a (a " + ty + ") (h (" + ty + " (s " + hx("x") + "))))", "(h ((a " + ty + " (i 5)) u))"} {
+			g.Emit(valOp(c, v))
+		}
 	}
 	// object instances over a type whose attributes have defaults: every combination of {explicit undef, the default,
 	// another value} per attribute — alone, and inside an array and a hash
